@@ -180,6 +180,19 @@ PLAN = {
         explanation="bounded run-time contract monitor only (rt.algomon.algo_monitor)",
         technique="run-time contract monitor on the real functions against an executable specification (bounded stand-in); deductive obligations pending",
     ),
+    "C10": dict(
+        level="other",
+        bounded=[dict(module="rt.drivers", fn="pair_monitor", label="paired runs: same inputs, permuted stations / constraints / sessions, shifted events, fresh interpreter")],
+        text="BOUNDED: a relation between pairs of runs, checked on the real simulator - every seeded scenario (scripted, uncontrolled, finite-rate greedy and "
+             "round robin, distinct priority keys) is re-run with equal inputs, with permuted station registration order, permuted constraint order, "
+             "permuted session listing order and with all events shifted by k periods; per-station pilots and rates and per-session energies must be "
+             "identical (shifted by k, zero before the shifted origin); a sample of scenarios is re-run in a fresh interpreter and must agree with the "
+             "in-process run (no state leaking between simulations).",
+        note="nothing is proved for C10 itself: it is a 2-safety property over whole runs; the id-keyed postconditions that would give the per-step "
+             "equivariance lemmas (C04 schedule overlay, C06 feasibility, C12 alignment) are themselves only monitored so far; floats are compared exactly",
+        explanation="bounded paired-run monitor only (rt.drivers.pair_monitor)",
+        technique="run-time paired-run monitor on the real simulator (bounded stand-in)",
+    ),
     "C12": dict(
         level="other",
         bounded=[dict(module="rt.netmon", fn="constraint_monitor", label="add/remove/update/register sequences with algebra-built Currents against the row model")],
